@@ -14,7 +14,7 @@ use stun_types::message::*;
 use stun_types::TransportType;
 
 pub const N_IDS: usize = 4; // A, B, C sent; U never sent
-pub const N_ADDRS: usize = 5; // P1, P2, P3, P1' (other port), P1'' (other ip)
+pub const N_ADDRS: usize = 8; // P1, P2, P3, P1' (other port), P1'' (other ip), P1 as IPv4-mapped IPv6, link-local %1, the same %2
 
 pub fn local_addr() -> SocketAddr {
     "10.0.0.1:1000".parse().unwrap()
@@ -26,7 +26,12 @@ pub fn peer(i: u8) -> SocketAddr {
         1 => "10.0.0.3:3000".parse().unwrap(),
         2 => "10.0.0.4:4000".parse().unwrap(),
         3 => "10.0.0.2:2001".parse().unwrap(),
-        _ => "10.0.0.9:2000".parse().unwrap(),
+        4 => "10.0.0.9:2000".parse().unwrap(),
+        // the IPv4-mapped IPv6 form of P1, and one link-local address under two scope ids: distinct
+        // socket addresses that a canonicalising key would conflate
+        5 => "[::ffff:10.0.0.2]:2000".parse().unwrap(),
+        6 => SocketAddr::V6(std::net::SocketAddrV6::new("fe80::1".parse().unwrap(), 2000, 0, 1)),
+        _ => SocketAddr::V6(std::net::SocketAddrV6::new("fe80::1".parse().unwrap(), 2000, 0, 2)),
     }
 }
 
@@ -147,10 +152,18 @@ pub struct Step {
 }
 
 /// Reference serialisation of the request the harness hands to `send` (never the library's).
+/// shape 2: more attributes than any inline capacity of the builder before the sealing attributes
+pub const MANY_ATTRS: usize = 18;
+
 pub fn request_wire(id: u8, seal: Seal, shape: u8) -> Vec<u8> {
     let mut b = wire::encode_header(0, 1, tid(id), 0);
     if shape == 1 {
         wire::append_raw(&mut b, 0x8022, b"vcheck");
+    }
+    if shape == 2 {
+        for i in 0..MANY_ATTRS {
+            wire::append_raw(&mut b, 0xC001 + i as u16, &[i as u8]);
+        }
     }
     let key = key_text(0).as_bytes();
     match seal {
@@ -295,6 +308,12 @@ impl Real {
                 let mut b = Message::builder(MessageType::from_class_method(MessageClass::Request, BINDING), tid(id).into());
                 if shape == 1 {
                     b.add_attribute(&sw).unwrap();
+                }
+                let many: Vec<[u8; 1]> = (0..MANY_ATTRS).map(|i| [i as u8]).collect();
+                if shape == 2 {
+                    for (i, v) in many.iter().enumerate() {
+                        b.add_raw_attribute(RawAttribute::new(AttributeType::new(0xC001 + i as u16), v)).unwrap();
+                    }
                 }
                 let c = creds(0);
                 match seal {
